@@ -481,8 +481,12 @@ def allowed_for_fault(env, op, pidkind, fn, fault, mode):
         # the one documented exception: unexplained OSError on the existing PID 0 (BSD, Solaris)
         out.add("AD" if pidkind == "pid0-listed" else "UNCHANGED")
     if fl == "openbsd" and pidkind == "pid0-unlisted" and mode != "gone" and cls in ("other", "enoent?"):
-        # _psbsd.pids() (OpenBSD): the kernel does not list PID 0 but it is queryable -> it exists
+        # _psbsd.pids() (OpenBSD): the kernel does not list PID 0 but it is queryable -> it exists, so the documented
+        # PID-0 exception applies and is the ONLY acceptable answer for an unexplained error (unless the very call that
+        # proves PID 0 queryable -- its name lookup -- is the one that keeps failing)
         out.add("AD")
+        if cls == "other" and fn != "proc_oneshot_info":
+            out.discard("UNCHANGED")
     # method-specific, documented in the module:
     if fl == "netbsd" and fn == "proc_cmdline" and fault[1] == "EINVAL":
         out |= {"ZOMBIE"} if mode == "zombie" else ({"NSP"} if mode == "gone" else set())
@@ -645,7 +649,11 @@ def special_cases(env):
     rows = [("nic0", 2, "192.168.1.7", "255.255.255.0", None, None),
             ("nic0", int(ps._common.AF_INET6), "fe80::1", "64", None, None),
             ("nic0", -1 if fl == "windows" else link, "aa-bb-cc" if fl == "windows" else "aa:bb:cc", None, None, None),
-            ("nic1", 2, "10.1.2.3", None, None, None)]
+            # records for which no broadcast address can be computed (non-contiguous mask; mask in expanded notation),
+            # placed right AFTER one for which it can: nothing may carry over from the previous record
+            ("nic2", 2, "10.9.0.2", "255.0.255.0", None, None),
+            ("nic1", 2, "10.1.2.3", None, None, None),
+            ("nic2", int(ps._common.AF_INET6), "fe80::2", "ffff:ffff:ffff:ffff::", None, None)]
     env.scenario(over={"net_if_addrs": rows})
     got = canon(ps.net_if_addrs())
     by = {(n, a["family"]): a for n, lst in got.items() for a in lst}
@@ -663,6 +671,10 @@ def special_cases(env):
         add("net_if_addrs:broadcast", bad, "windows:net_if_addrs:broadcast-discarded",
             "computed broadcast address does not take effect: IPv4 192.168.1.7/255.255.255.0 -> %r (expected "
             "'192.168.1.255'), IPv6 fe80::1/64 -> %r" % (b4, b6), got)
+        for fam_, what_ in ((2, "10.9.0.2/255.0.255.0"), (int(ps._common.AF_INET6), "fe80::2/ffff:ffff:ffff:ffff::")):
+            lb = by.get(("nic2", fam_), {}).get("broadcast")
+            add("net_if_addrs:uncomputable-%d" % fam_, lb is not None, "windows:net_if_addrs:broadcast-carried-over-from-previous-record",
+                "%s has no computable broadcast address, front end reports %r" % (what_, lb), got)
         nb = by.get(("nic1", 2), {}).get("broadcast")
         add("net_if_addrs:no-netmask", nb is not None, "windows:net_if_addrs:broadcast-without-netmask",
             "broadcast %r for an address without netmask" % (nb,), got)
